@@ -37,6 +37,9 @@ def check(run):
     rules = {"GLOBAL/write", "IDX/fill-literal", "IDX/fill-safety", "IDX/space", "UNIT/deg->trig", "UNIT/double-conversion", "ALIAS/internal-returned"}
     ok, bad = emit(run, R, rules, files=[UG, EX, SC], funcs=ENCODERS)
     run.floor("dataflow@encoders", ok + bad, 3)
+    # the readers the round trip goes through normalise the file's Cartesian coordinates (the Exodus encoder writes x, y, z only)
+    from .c01 import _readers_normalise
+    _readers_normalise(run, P)
     # ---- topology names guarded by presence
     f = P.func(f"{UG}:_encode_ugrid")
     dsname = f.params()[0]
